@@ -18,8 +18,9 @@ Judge ==
     LET want == SegmentVerifies(R.ents, R.info, R.ts)
         keys == (IF R.accepted /\ ~want THEN {"accepted:" \o R.mut} ELSE {})
            \cup (IF R.wire /\ ~want THEN {"accepted(wire):" \o R.mut} ELSE {})
-           \cup (IF want /\ ~R.accepted THEN {"rejected:" \o R.mut} ELSE {})
-           \cup (IF want /\ ~R.wire THEN {"rejected(wire):" \o R.mut} ELSE {})
+           \* a request whose context was cancelled may fail for that reason: only "accepted => verifies"
+           \cup (IF R.ctx = "live" /\ want /\ ~R.accepted THEN {"rejected:" \o R.mut} ELSE {})
+           \cup (IF R.ctx = "live" /\ want /\ ~R.wire THEN {"rejected(wire):" \o R.mut} ELSE {})
     IN  /\ \A k \in keys : PrintT(<<"VERIF-BAD", l, k>>)
         /\ st' = [cases |-> st.cases + 1, accepted |-> st.accepted + (IF R.accepted THEN 1 ELSE 0),
                   rejected |-> st.rejected + (IF R.accepted THEN 0 ELSE 1), entries |-> st.entries + Len(R.ents)]
